@@ -46,7 +46,8 @@ RULE = ('case = (world rt) 1-3 events in flight over the 6 routes of a 4-node to
         'stream (every single cut, byte-at-a-time, every-n, cuts around the delimiter and the 4096-byte read boundaries, all pairs '
         'of cuts in thorough) + every sequence of 2-3 sends on one server->client connection, each a notification (Server.send '
         'no_result=True | send_to | send_all) or an awaited call, x peer handler behaviour per event (return / raise / delayed '
-        'generator, distinct results) x 4 segmentations | (world h) one hostile packet from a grammar (truncation at every offset, non-object JSON, missing/'
+        'generator, distinct results) x {all sends in one burst, each send after the previous packet was written} x 2-4 segmentations '
+        '| (world h) one hostile packet from a grammar (truncation at every offset, non-object JSON, missing/'
         'extra keys, wrong JSON type per key, sizes up to 1 MiB, nesting, bad UTF-8, every single metadata key and every pair from '
         'dir(Event()) + the attributes the dispatcher reads) against a victim under the real run() with an honest second peer | '
         '(world ser) dump/load round trips; every case executed once on fresh real objects; non-trivial = anything but a single '
@@ -287,10 +288,6 @@ class Tree:
             w.log.append(('go', tree.name, k))
             ev = w.sent[k]
             info = w.launch[k]
-            if info.get('nr'):
-                # fire and forget: performed by its own event so that the sends of a case reach the connection in case order
-                self.fire(Event.create('tell', k))
-                return
             if info['up']:
                 x = yield self.call(remote(ev, info['peer'], channel=info['ch']))
             else:
@@ -315,6 +312,19 @@ class Tree:
             else:
                 server.send_all(w.sent[k])
 
+        def seq(self, event):
+            """family notify-mix: the application's sequence of sends; 'burst': all in one go (an awaited call is a generator
+            that writes its packet when the loop first steps it - several of them in no particular order -, so the
+            notifications overtake the calls), 'ordered': the next send is made once the packet of the previous one has been
+            written to the transport."""
+            for k in range(len(w.sent)):
+                self.fire(Event.create('tell' if w.launch[k]['nr'] else 'go', k))
+                if w.spec['pace'] == 'ordered':
+                    for _ in range(20):
+                        if w.on_wire(k):
+                            break
+                        yield None
+
         def sentinel(self, event):
             w.log.append(('sentinel', tree.name))
 
@@ -324,6 +334,7 @@ class Tree:
         self.root.addHandler(handler('go')(go))
         self.root.addHandler(handler('push')(push))
         self.root.addHandler(handler('tell')(tell))
+        self.root.addHandler(handler('seq')(seq))
         self.root.addHandler(handler('sentinel')(sentinel))
         self.root.addHandler(handler('exception', channel='*')(on_exc))
         for k, beh in enumerate(w.behaviours):
@@ -420,6 +431,7 @@ class Net(BaseWorld):
         self.cuts = spec.get('cuts', {})
         self.offset = {}
         self.wire = {}
+        self.wire_round = {}
         self.segments = 0
         self.cut_hits = 0
         self.crashed = None
@@ -457,6 +469,7 @@ class Net(BaseWorld):
                 data = b''.join(tc.out)
                 del tc.out[:]
                 self.wire.setdefault('%du' % li, []).append(data)
+                self.wire_round.setdefault('%du' % li, []).append(self.rounds)
                 for seg in self.chop('%du' % li, data):
                     stt.root.fire(net_read(sock, seg), stt.node.channel)
                     moved += 1
@@ -465,6 +478,7 @@ class Net(BaseWorld):
                 stt.tserver.out[:] = [x for x in stt.tserver.out if x[0] is not sock]
                 data = b''.join(mine)
                 self.wire.setdefault('%dd' % li, []).append(data)
+                self.wire_round.setdefault('%dd' % li, []).append(self.rounds)
                 for seg in self.chop('%dd' % li, data):
                     ct.root.fire(net_read(seg), ct.chan[peer])
                     moved += 1
@@ -472,9 +486,12 @@ class Net(BaseWorld):
         return moved
 
     def run(self, horizon=60, idle_needed=6):
-        for k in range(len(self.sent)):
-            src = self.trees[self.launch[k]['src']]
-            src.root.fire(Event.create('go', k), 'app')
+        if self.spec.get('pace'):
+            self.trees[self.launch[0]['src']].root.fire(Event.create('seq'), 'app')
+        else:
+            for k in range(len(self.sent)):
+                src = self.trees[self.launch[k]['src']]
+                src.root.fire(Event.create('go', k), 'app')
         idle, lastlen = 0, -1
         try:
             for rnd in range(horizon):
@@ -491,10 +508,23 @@ class Net(BaseWorld):
             self.crashed = '%s: %s' % (type(exc).__name__, exc)
         return self
 
-    def packets(self, key):
+    def on_wire(self, k):
+        """Has the call packet of event k been written to the transport by its sender (a server)?"""
+        mark = ('"name": "%s"' % self.names[k]).encode()
+        t = self.trees[self.launch[k]['src']]
+        return any(mark in d for _, d in t.tserver.out) or any(mark in d for key, v in self.wire.items() if key.endswith('d') for d in v)
+
+    def timeline(self, key):
+        """[(round in which the harness carried it, packet)] of one direction of one link (every write is a whole packet)."""
+        out = []
+        for rnd, data in zip(self.wire_round.get(key, []), self.wire.get(key, [])):
+            out.extend((rnd, p) for p in self.packets(key, data))
+        return out
+
+    def packets(self, key, data=None):
         """Parsed packets that travelled on one direction of one link: list of ('call', id, name) / ('value', id) / ('junk',)."""
         out = []
-        for raw in b''.join(self.wire.get(key, [])).split(DELIM):
+        for raw in (b''.join(self.wire.get(key, [])) if data is None else data).split(DELIM):
             if not raw:
                 continue
             try:
@@ -964,8 +994,9 @@ def nf_beh(b, kind, k, delay):
 
 
 def cases_notify(tier):
-    """Every sequence of 2-3 sends on one server->client connection, each a notification or an awaited call."""
-    segs = NF_SEGS + ([['every', 3], ['delim', 1], ['delim', -1]] if tier == 'thorough' else [])
+    """Every sequence of 2-3 sends on one server->client connection, each a notification or an awaited call; made in one burst
+    or each after the previous one has been written (see Tree.install.seq)."""
+    segs = NF_SEGS + ([['delim', 1]] if tier == 'thorough' else [])
     for r in (1, 3, 5) if tier == 'thorough' else (1, 3):      # 1, 5: server S has two connections (send_all reaches both); 3: T has one
         for n in (2, 3):
             for kinds in itertools.product('NC', repeat=n):
@@ -978,6 +1009,8 @@ def cases_notify(tier):
                 for behs in itertools.product(('ret', 'raise', 'gen'), repeat=n):
                     for delay in (2,) if tier == 'quick' or 'gen' not in behs else (1, 2, 3):
                         for styles in stylesets:
+                            if delay != 2 and len(set(styles)) > 1:
+                                continue        # other delays: with one way of notifying per sequence
                             it = iter(styles)
                             evs = []
                             for k in range(n):
@@ -985,11 +1018,18 @@ def cases_notify(tier):
                                 if kinds[k] == 'N':
                                     e['nr'] = next(it)
                                 evs.append(e)
-                            for seg in segs:
-                                spec = {'w': 'rt', 'fam': 'notify-mix', 'events': evs}
-                                if seg:
-                                    spec['cuts'] = {'%d%s' % (li, d): seg for li in range(3) for d in 'ud'}
-                                yield spec
+                            for pace in ('burst', 'ordered'):
+                                for seg in segs:
+                                    # quick, 3 sends: byte-at-a-time only for 2 sends (3 times the cost of the others)
+                                    if tier == 'quick' and n == 3 and (seg == ['every', 1] or (pace == 'ordered' and seg == ['every', 7])):
+                                        continue
+                                    # thorough: different ways of notifying within one sequence: uncut and one packet per read
+                                    if len(set(styles)) > 1 and seg not in (None, ['delim', 0]):
+                                        continue
+                                    spec = {'w': 'rt', 'fam': 'notify-mix', 'pace': pace, 'events': evs}
+                                    if seg:
+                                        spec['cuts'] = {'%d%s' % (li, d): seg for li in range(3) for d in 'ud'}
+                                    yield spec
 
 
 def cases_rt(tier):
@@ -1427,6 +1467,34 @@ def execute(spec):
     return got, bad, None
 
 
+def nf_facts(spec, w):
+    """Vacuity facts of a notify-mix case (names of counters)."""
+    facts = []
+    kinds = ''.join(nf_kinds(spec))
+    li = spec['events'][0]['r'] // 2
+    down, up = w.timeline('%dd' % li), w.timeline('%du' % li)
+    sent = {p[2]: (n, rnd, p[1]) for n, (rnd, p) in enumerate(down) if p[0] == 'call'}      # name -> (position on the wire, round, id)
+    answered = {p[1]: rnd for rnd, p in up if p[0] == 'value'}                                # id -> round
+    order = ''.join(kinds[w.names.index(name)] for name in sorted(sent, key=lambda x: sent[x][0]) if name in w.names)
+    if re.search('N.*C', order):
+        facts.append('rt_cases_notification_written_before_an_awaited_call')
+    if order != kinds:
+        facts.append('rt_cases_notification_overtook_an_awaited_call')
+    # the peer answers a notification too: did that answer arrive while a call written after it was still unanswered?
+    for kn in (k for k, x in enumerate(kinds) if x == 'N'):
+        for kc in (k for k, x in enumerate(kinds) if x == 'C'):
+            n, c = sent.get(w.names[kn]), sent.get(w.names[kc])
+            if n and c and n[0] < c[0] and n[2] in answered and c[2] in answered and c[1] <= answered[n[2]] <= answered[c[2]]:
+                facts.append('rt_cases_answer_to_a_notification_arrived_while_a_later_call_was_in_flight')
+                break
+        else:
+            continue
+        break
+    if any(e.get('nr') == 'send_all' and len(nf_destinations(spec, k)) > 1 for k, e in enumerate(spec['events'])):
+        facts.append('rt_cases_send_all_to_a_server_with_two_connections')
+    return facts
+
+
 def count(st, spec, w):
     c = st.counters
     if spec['w'] == 'rt':
@@ -1444,16 +1512,8 @@ def count(st, spec, w):
             c['rt_cases_firewall_rejected_something'] += 1
         if spec.get('fam') == 'notify-mix':
             c['rt_notify_mix_cases'] += 1
-            kinds = ''.join(nf_kinds(spec))
-            if re.search('N.*C', kinds):
-                c['rt_cases_notification_sent_before_an_awaited_call'] += 1
-                # the peer answers the notification too: its answer arrives while the later call is still in flight
-                li = spec['events'][0]['r'] // 2
-                if sum(1 for p in w.packets('%du' % li) if p[0] == 'value') > kinds.count('C'):
-                    c['rt_cases_peer_answered_a_notification_sent_before_an_awaited_call'] += 1
-            if any(e.get('nr') == 'send_all' for e in spec['events']) and len(nf_destinations(
-                    spec, next(k for k, e in enumerate(spec['events']) if e.get('nr') == 'send_all'))) > 1:
-                c['rt_cases_send_all_reached_two_connections'] += 1
+            for name in nf_facts(spec, w):
+                c[name] += 1
         if any(sum(len(x) for x in v) > 4096 for v in w.wire.values()):
             c['rt_cases_stream_longer_than_4096'] += 1
         st.transitions += w.rounds
@@ -1511,7 +1571,7 @@ def run(tier, seed, workers):
     probes = [{'w': 'rt', 'fam': 'probe', 'events': [ev(0, [1], None, None, None, ['gen', 'G', 1]), ev(5, [2])],
                'cuts': {'0u': ['every', 7]}},
               {'w': 'h', 'victim': 'S', 'path': 'call', 'inflight': None, 'cls': 'meta', 'meta': {'zz': 1}},
-              {'w': 'rt', 'fam': 'notify-mix', 'cuts': {'0d': ['delim', 0], '0u': ['every', 7]}, 'events': [
+              {'w': 'rt', 'fam': 'notify-mix', 'pace': 'ordered', 'cuts': {'0d': ['delim', 0], '0u': ['every', 7]}, 'events': [
                   dict(ev(1, [0], None, None, None, ['gen', 'N0', 2]), nr='send_all'), ev(1, [1], None, None, None, ['ret', 'C1']),
                   dict(ev(1, [2], None, None, None, ['raise', None]), nr='send')]}]
     for p in probes:
@@ -1525,13 +1585,13 @@ def run(tier, seed, workers):
                  'largest_event_bytes': 70000, 'largest_hostile_packet_bytes': 2 ** 20, 'metadata_keys': len(keys) + len(dunders),
                  'metadata_key_pairs': len(keys) * (len(keys) - 1) // 2, 'dispatcher_attributes_compared': len(DISPATCH_ATTRS),
                  'tick_round_horizon': 60, 'run_iteration_horizon': 40, 'notify_mix_sequence_length': 3,
-                 'notify_mix_send_styles': len(NF_STYLES), 'notify_mix_segmentations': len(NF_SEGS) + (3 if tier == 'thorough' else 0)}
+                 'notify_mix_send_styles': len(NF_STYLES), 'notify_mix_paces': 2, 'notify_mix_segmentations': len(NF_SEGS) + (1 if tier == 'thorough' else 0)}
     for name in ('rt_cases_with_a_cut_that_fell_inside_the_stream', 'rt_cases_several_events_in_flight',
                  'rt_cases_results_returned_out_of_order', 'rt_cases_same_call_id_on_two_connections',
                  'rt_cases_firewall_rejected_something', 'rt_cases_stream_longer_than_4096', 'hostile_packets_that_were_dispatched',
-                 'rt_cases_notification_sent_before_an_awaited_call',
-                 'rt_cases_peer_answered_a_notification_sent_before_an_awaited_call',
-                 'rt_cases_send_all_reached_two_connections',
+                 'rt_cases_notification_written_before_an_awaited_call', 'rt_cases_notification_overtook_an_awaited_call',
+                 'rt_cases_answer_to_a_notification_arrived_while_a_later_call_was_in_flight',
+                 'rt_cases_send_all_to_a_server_with_two_connections',
                  'hostile_value_packets_that_resumed_a_sender'):
         if not st.counters[name]:
             st.selfcheck_errors.append('vacuity: counter %s is 0' % name)
